@@ -71,7 +71,7 @@ class C10(Prop):
     components = {"real": ["baize.asgi.requests.Request", "baize.wsgi.requests.Request", "baize.utils.cached_property",
                            "baize.multipart*", "baize.datastructures.FormData/UploadFile", "asyncio tasks/futures (CPython)"],
                   "stub": ["event-loop selector/clock (SimLoop)", "ASGI server receive() (AsgiHttpPeer)", "wsgi.input (SimInput)"]}
-    hard_probes = ("disconnect", "asgi_multi_task", "shared_body_future", "wsgi_run", "short_read")
+    hard_probes = ("disconnect", "asgi_multi_task", "shared_body_future", "wsgi_run", "short_read", "wsgi_body_without_content_length")
     quick_runs = 300000
     thorough_runs = 3000000
     batch = 500
@@ -112,6 +112,8 @@ class C10(Prop):
         else:
             plan["chunk_size"] = t.choice([None, None, 1, 2, 3, 7, 4096])
             plan["short"] = t.draw(3) != 0
+            # a de-chunked "Transfer-Encoding: chunked" upload or an HTTP/2 front end: the server hands over a body without Content-Length
+            plan["content_length"] = t.weighted([(3, "exact"), (1, "absent"), (1, "chunked")])
             plan["tasks"] = [gen_program(t, 5)]
         return plan
 
@@ -438,8 +440,15 @@ class C10(Prop):
         ctx.probe("wsgi_run")
         body = plan["body"]
         exp = self._expect(plan)
-        req_abs = AbstractRequest("POST", "/", headers=[("content-type", plan["ct"]), ("content-length", str(len(body)))] if plan["ct"] else
-                                  [("content-length", str(len(body)))], body=body)
+        hdrs = [("content-type", plan["ct"])] if plan["ct"] else []
+        cl = plan.get("content_length", "exact")
+        if cl == "exact":
+            hdrs.append(("content-length", str(len(body))))
+        elif cl == "chunked":
+            hdrs.append(("transfer-encoding", "chunked"))
+        if cl != "exact":
+            ctx.probe("wsgi_body_without_content_length")
+        req_abs = AbstractRequest("POST", "/", headers=hdrs, body=body)
         peer = WsgiPeer(ctx, ctx.sched, req_abs, short_reads=plan["short"])
         req = Request(peer.environ)
         results = []
